@@ -26,8 +26,23 @@ pub struct Msg {
 /// maps with non-string keys under JSON, sequences of unknown length under bincode, ...).
 #[derive(Clone, Copy, Debug, Default, PartialEq, Eq, Hash)]
 pub struct Poison(pub bool);
+thread_local! {
+    /// Poison only bites while typed calls run (the harness itself serializes cases to JSON for replay files).
+    static POISON_ARMED: std::cell::Cell<bool> = const { std::cell::Cell::new(false) };
+}
+struct Armed;
+impl Armed {
+    fn new() -> Self { POISON_ARMED.with(|a| a.set(true)); Armed }
+}
+impl Drop for Armed {
+    fn drop(&mut self) { POISON_ARMED.with(|a| a.set(false)); }
+}
+
 impl Serialize for Poison {
     fn serialize<S: serde::Serializer>(&self, s: S) -> Result<S::Ok, S::Error> {
+        if self.0 && !POISON_ARMED.with(|a| a.get()) {
+            return s.serialize_bool(true);
+        }
         if self.0 {
             Err(serde::ser::Error::custom("this message cannot be serialized"))
         } else {
@@ -279,6 +294,15 @@ impl Log {
 
 /// Planned handler behaviour, a pure function of the request message.
 fn plan(tag: &str, m: &Msg) -> Result<Response<Msg>, Status> {
+    if m.text.starts_with("errnomsg:") {
+        // an error status that carries headers but no message (what e.g. a rate limiter returns)
+        let code = [StatusCode::BadRequest, StatusCode::NotFound, StatusCode::RequestTimeout, StatusCode::TooManyRequests, StatusCode::InternalServerError, StatusCode::VersionNotSupported, StatusCode::Unknown][(m.id % 7) as usize];
+        let mut s = Status::new(code).with_header("x-tag", tag);
+        for (i, b) in m.blob.iter().take(3).enumerate() {
+            s = s.with_header(format!("x-h{i}"), format!("v{b}"));
+        }
+        return Err(s);
+    }
     if let Some(rest) = m.text.strip_prefix("err:") {
         let code = [StatusCode::BadRequest, StatusCode::NotFound, StatusCode::RequestTimeout, StatusCode::TooManyRequests, StatusCode::InternalServerError, StatusCode::VersionNotSupported, StatusCode::Unknown][(m.id % 7) as usize];
         let mut s = Status::new_with_message(code, format!("{tag}:{rest}"));
@@ -367,10 +391,23 @@ pub fn route_of(method: &str) -> (&'static str, bool) {
 }
 
 pub fn router(log: &Log) -> Router {
-    Router::new()
-        .add_rpc_service(s1::echo_server::EchoServer::new(log.clone()))
-        .add_rpc_service(s2::echo_server::EchoServer::new(log.clone()))
-        .add_rpc_service(s3::greeter_server::GreeterServer::new(log.clone()))
+    router_assembled(log, 0)
+}
+
+pub fn router_assembled(log: &Log, assembly: u8) -> Router {
+    let (a, b, c) = (s1::echo_server::EchoServer::new(log.clone()), s2::echo_server::EchoServer::new(log.clone()), s3::greeter_server::GreeterServer::new(log.clone()));
+    match assembly % 3 {
+        0 => Router::new().add_rpc_service(a).add_rpc_service(b).add_rpc_service(c),
+        1 => Router::new().add_rpc_service(a).merge(Router::new().add_rpc_service(b)).merge(Router::new().merge(Router::new().add_rpc_service(c))),
+        _ => {
+            let plain = tower::service_fn(|_r: Request<Bytes>| async move { Ok::<_, std::convert::Infallible>(Response::new(Bytes::from_static(b"plain"))) });
+            Router::new()
+                .route("/plain", plain)
+                .route_layer(tower::layer::util::Identity::new())
+                .merge(Router::new().add_rpc_service(a).add_rpc_service(b))
+                .merge(Router::new().add_rpc_service(c).route_layer(tower::layer::util::Identity::new()))
+        }
+    }
 }
 
 #[derive(Clone, Debug, Serialize, Deserialize, PartialEq, Eq, Hash)]
@@ -387,6 +424,10 @@ pub enum Call {
 pub struct CallCase {
     pub over_network: bool,
     pub calls: Vec<Call>,
+    /// how the router is put together: 0 = add_rpc_service on one router, 1 = each service added to
+    /// its own router, then merged, 2 = merged into a router that already has routes and a layer
+    #[serde(default)]
+    pub assembly: u8,
 }
 
 async fn typed<S>(svc: S, method: &str, msg: Msg) -> Result<Response<Msg>, Status>
@@ -464,7 +505,7 @@ where
                     (Err(want), Err(got)) => {
                         vensure!(got.status() == want.status(), "c17:status-code", "call {i} ({method}): error status {:?}, the handler returned {:?}", got.status(), want.status());
                         // the message travels as the status-message header and must arrive unchanged
-                        let want_msg = format!("{method}:{}", msg.text.strip_prefix("err:").unwrap_or(""));
+                        let want_msg = if msg.text.starts_with("errnomsg:") { String::new() } else { format!("{method}:{}", msg.text.strip_prefix("err:").unwrap_or("")) };
                         let got_msg = got.headers().get("status-message").cloned().unwrap_or_default();
                         vensure!(got_msg == want_msg, "c17:status-message", "call {i} ({method}): the handler's status message ({} bytes) arrived as {} bytes{}", want_msg.len(), got_msg.len(), if got_msg.len() < 200 { format!(": {got_msg:?}") } else { String::new() });
                         for (k, v) in want.headers() {
@@ -515,7 +556,8 @@ where
 
 pub fn call_case(case: &CallCase, obs: &mut Obs) -> Result<(), Fail> {
     let log = Log::default();
-    let r = router(&log);
+    let r = router_assembled(&log, case.assembly);
+    let armed = Armed::new();
     let result = std::panic::catch_unwind(std::panic::AssertUnwindSafe(|| {
         if case.over_network {
             let case = case.clone();
@@ -540,6 +582,7 @@ pub fn call_case(case: &CallCase, obs: &mut Obs) -> Result<(), Fail> {
             futures::executor::block_on(run_calls(r, &log, &case.calls, &mut o)).map(|_| o)
         }
     }));
+    drop(armed);
     match result {
         Ok(Ok(o)) => {
             for l in o.labels { obs.label(l); }
@@ -564,17 +607,17 @@ impl Part for Calls {
     type Case = CallCase;
     fn name(&self) -> &'static str { "typed-calls" }
     fn rule(&self) -> &'static str {
-        "three services compiled into the harness by its build.rs from the CURRENT anemo-build (no package / dotted package / single package; route names that are prefixes of each other; the same service and route names in two services; both codecs; raw-bytes handlers), all mounted on one Router with add_rpc_service, called in-process and over the simulated network: typed calls with generated messages (some of which cannot be serialized, as request or as the handler's response) and planned handler results (Ok(message) or Err(Status{code, message of 0-3000 bytes incl. multi-byte text, headers})), undecodable request payloads (0-40 bytes, incl. very short ones) sent to method routes, and hostile responses (any status, any payload) handed to the typed clients; oracle: a typed call invokes exactly the same-named handler with an equal message and returns its response, or the handler's status with equal code, message and headers; a message that cannot be serialized surfaces as an error status and leaves every later call intact; undecodable payloads get a non-success status and reach no handler; undecodable or non-success responses surface as Err(Status); never a panic; non-trivial = every case except plain empty messages; distinct by case"
+        "three services compiled into the harness by its build.rs from the CURRENT anemo-build (no package / dotted package / single package; route names that are prefixes of each other; the same service and route names in two services; both codecs; raw-bytes handlers), all mounted on one Router (add_rpc_service directly, or each service on its own router merged in, or merged into a router that already has routes and a route layer), called in-process and over the simulated network: typed calls with generated messages (some of which cannot be serialized, as request or as the handler's response) and planned handler results (Ok(message) or Err(Status{code, message of 0-3000 bytes incl. multi-byte text or no message at all, headers})), undecodable request payloads (0-40 bytes, incl. very short ones) sent to method routes, and hostile responses (any status, any payload) handed to the typed clients; oracle: a typed call invokes exactly the same-named handler with an equal message and returns its response, or the handler's status with equal code, message and headers; a message that cannot be serialized surfaces as an error status and leaves every later call intact; undecodable payloads get a non-success status and reach no handler; undecodable or non-success responses surface as Err(Status); never a panic; non-trivial = every case except plain empty messages; distinct by case"
     }
     fn strategy(&self, _t: Tier) -> BoxedStrategy<CallCase> {
-        let msg = (any::<u64>(), prop_oneof![6 => "[a-z ]{0,12}", 4 => "err:[a-z]{0,8}", 1 => "err:\\PC{300,1500}", 1 => "err:[a-z]{1000,3000}", 2 => "\\PC{0,20}", 1 => "poisonresp:[a-z]{0,4}"], prop::collection::vec(any::<u8>(), 0..40), prop::bool::weighted(0.08)).prop_map(|(id, text, blob, poison)| Msg { id, text, blob, poison: Poison(poison) });
+        let msg = (any::<u64>(), prop_oneof![6 => "[a-z ]{0,12}", 4 => "err:[a-z]{0,8}", 2 => "errnomsg:[a-z]{0,3}", 1 => "err:\\PC{300,1500}", 1 => "err:[a-z]{1000,3000}", 2 => "\\PC{0,20}", 1 => "poisonresp:[a-z]{0,4}"], prop::collection::vec(any::<u8>(), 0..40), prop::bool::weighted(0.08)).prop_map(|(id, text, blob, poison)| Msg { id, text, blob, poison: Poison(poison) });
         let garbage = prop_oneof![2 => prop::collection::vec(any::<u8>(), 0..16), 2 => prop::collection::vec(any::<u8>(), 16..41), 1 => "[ -~]{0,30}".prop_map(|s| s.into_bytes())];
         let call = prop_oneof![
             5 => (0u8..12, msg).prop_map(|(m, msg)| Call::Typed(m, msg)),
             2 => (0u8..12, garbage.clone()).prop_map(|(m, b)| Call::GarbageRequest(m, b)),
             2 => (0u8..12, prop_oneof![Just(200u16), Just(400), Just(404), Just(408), Just(429), Just(500), Just(505), Just(520)], garbage).prop_map(|(m, s, b)| Call::HostileResponse(m, s, b)),
         ];
-        (prop::bool::weighted(0.3), prop::collection::vec(call, 1..12)).prop_map(|(over_network, calls)| CallCase { over_network, calls }).boxed()
+        (prop::bool::weighted(0.3), prop::collection::vec(call, 1..12), 0u8..3).prop_map(|(over_network, calls, assembly)| CallCase { over_network, calls, assembly }).boxed()
     }
     fn run(&self, c: &CallCase, obs: &mut Obs) -> Result<(), Fail> { call_case(c, obs) }
 }
